@@ -33,13 +33,13 @@ var ReqFields = []Field{
 	{"method", []string{"GET", "POST", "get", "HEAD"}},
 	{"target", []string{"/", "/chat?x=1"}},
 	{"version", []string{"HTTP/1.1", "HTTP/1.0", "HTTP/1.2", "HTTP/1.10", "HTTP/2.0", "HTTP/0.9", "HTTP/1.;", "HTTP/1", "HTTX/1.1", "HTTP/1.?"}},
-	{"host", []string{"canon", "absent", "lower", "upper", "padded", "dup-same", "dup-conflict"}},
-	{"upgrade", []string{"canon", "absent", "lower", "upper", "padded", "case", "wrong", "dup-same", "dup-conflict"}},
-	{"connection", []string{"canon", "absent", "lower", "upper", "padded", "case", "CASE", "wrong", "dup-same", "dup-conflict", "first", "middle", "last", "nearmiss", "list-without"}},
-	{"wsversion", []string{"canon", "absent", "lower", "upper", "padded", "wrong", "dup-same", "dup-conflict", "empty"}},
-	{"key", []string{"canon", "absent", "lower", "upper", "padded", "23", "25", "nonb64", "dup-same", "dup-conflict"}},
-	{"protocol", []string{"absent", "a", "a, b", "b,a", "malformed", "two-headers"}},
-	{"extensions", []string{"absent", "one", "two", "malformed", "pmd"}},
+	{"host", []string{"canon", "absent", "lower", "upper", "padded", "dup-same", "triple-same", "dup-conflict"}},
+	{"upgrade", []string{"canon", "absent", "lower", "upper", "padded", "case", "wrong", "dup-same", "triple-same", "dup-conflict"}},
+	{"connection", []string{"canon", "absent", "lower", "upper", "padded", "case", "CASE", "wrong", "dup-same", "triple-same", "dup-conflict", "first", "middle", "last", "nearmiss", "list-without"}},
+	{"wsversion", []string{"canon", "absent", "lower", "upper", "padded", "wrong", "dup-same", "triple-same", "dup-conflict", "empty"}},
+	{"key", []string{"canon", "absent", "lower", "upper", "padded", "23", "25", "nonb64", "dup-same", "triple-same", "dup-conflict"}},
+	{"protocol", []string{"absent", "a", "a, b", "b,a", "malformed", "two-headers", "three-headers"}},
+	{"extensions", []string{"absent", "one", "two", "malformed", "pmd", "two-headers", "three-headers"}},
 	{"extra", []string{"none", "before", "between", "after"}},
 	{"order", []string{"canonical", "reversed", "rotated"}},
 	{"lineend", []string{"CRLF", "LF"}},
@@ -128,6 +128,8 @@ func headerLines(canonName, canonValue, variant string, alt map[string]string, c
 		return []hline{{canonName, canonValue}, {canonName, canonValue}}
 	case "dup-conflict":
 		return []hline{{canonName, canonValue}, {canonName, conflict}}
+	case "triple-same":
+		return []hline{{canonName, canonValue}, {canonName, canonValue}, {canonName, canonValue}}
 	}
 	if v, ok := alt[variant]; ok {
 		return []hline{{canonName, v}}
@@ -157,6 +159,8 @@ func (r Req) Build() []byte {
 		hs = append(hs, []hline{{"Sec-WebSocket-Protocol", "a, (b"}})
 	case "two-headers":
 		hs = append(hs, []hline{{"Sec-WebSocket-Protocol", "a"}, {"Sec-WebSocket-Protocol", "b"}})
+	case "three-headers":
+		hs = append(hs, []hline{{"Sec-WebSocket-Protocol", "c"}, {"Sec-WebSocket-Protocol", "a"}, {"Sec-WebSocket-Protocol", "b"}})
 	}
 	switch r.V("extensions") {
 	case "one":
@@ -167,6 +171,10 @@ func (r Req) Build() []byte {
 		hs = append(hs, []hline{{"Sec-WebSocket-Extensions", "x; =, ;"}})
 	case "pmd":
 		hs = append(hs, []hline{{"Sec-WebSocket-Extensions", "permessage-deflate; client_max_window_bits, x"}})
+	case "two-headers":
+		hs = append(hs, []hline{{"Sec-WebSocket-Extensions", "x; p=1"}, {"Sec-WebSocket-Extensions", "y"}})
+	case "three-headers":
+		hs = append(hs, []hline{{"Sec-WebSocket-Extensions", "y"}, {"Sec-WebSocket-Extensions", "permessage-deflate"}, {"Sec-WebSocket-Extensions", "x; p=1"}})
 	}
 	switch r.V("order") {
 	case "reversed":
@@ -319,6 +327,8 @@ func (r Req) OfferedProtocols() []string {
 		return []string{"a"}
 	case "a, b", "two-headers":
 		return []string{"a", "b"}
+	case "three-headers":
+		return []string{"c", "a", "b"}
 	case "b,a":
 		return []string{"b", "a"}
 	}
@@ -330,8 +340,10 @@ func (r Req) OfferedExtensions() []string {
 	switch r.V("extensions") {
 	case "one":
 		return []string{"x"}
-	case "two":
+	case "two", "two-headers":
 		return []string{"x", "y"}
+	case "three-headers":
+		return []string{"y", "permessage-deflate", "x"}
 	case "pmd":
 		return []string{"permessage-deflate", "x"}
 	}
